@@ -235,7 +235,9 @@ pub fn spec(r: &mut Rng, p: &Profile) -> Spec {
     let tot = p.unbounded_w as u64 + 60;
     s.bound = if r.below(tot) < p.unbounded_w as u64 { None } else { Some(r.below(p.max_bound + 1) as usize) };
     if r.chance(p.timeout_pm) {
-        s.timeout = Some(2 * (1 + r.below(20))); // even, handler sleeps are odd: never a tie
+        // even, handler sleeps are odd: never a tie; now and then a limit of zero (every handler that
+        // has to wait at all is over it)
+        s.timeout = Some(if r.chance(80) { 0 } else { 2 * (1 + r.below(20)) });
         s.fail_on_timeout = r.chance(p.fail_on_timeout_pm);
         s.cfg_order = r.below(4) as u8;
     }
